@@ -22,7 +22,7 @@ import (
 )
 
 func TestMain(m *testing.M) {
-	vstat.Rule("State machine over a plain RoundRobin or Rebalancer(RoundRobin), with or without a (raw-codec) sticky session. Server URLs from a product alphabet with frequent identity collisions: scheme{http,https} x host{a,b,a:80,[::1]:8080} x path{'',/,/p,/p/,/a%2Fb,/a/b} x userinfo{-,u,u:p} x query{-,x=1}. Actions: upsert(u[,w]) incl. weight 0 and invalid -1, remove(u) known/unknown, request via NextServer or ServeHTTP (handler may rewrite req.URL path/host/scheme/user/query and headers; request may carry a sticky cookie naming a member or non-member), rotation (W selections). Oracle: reference model keyed by (scheme,host,path)->configured weight; after every step Servers() key set and ServerWeight equal the model, unknown remove errors and changes nothing, rotation selects exactly the positive-weight members, empty/all-zero pool => error status and handler not invoked, Servers() rendered as strings unchanged by a mutating handler. Non-trivial: removal after >=1 update of the same key, or duplicate add under a different spelling, or unknown remove, or mutating handler on the sticky path.")
+	vstat.Rule("State machine over a plain RoundRobin or Rebalancer(RoundRobin), with or without a (raw-codec) sticky session. Server URLs from a product alphabet with frequent identity collisions: scheme{http,https} x host{a,b,a:80,[::1]:8080} x path{'',/,/p,/p/,/a%2Fb,/a/b} x userinfo{-,u,u:p} x query{-,x=1}. Actions: upsert(u[,w]) incl. weight 0 and invalid -1, remove(u) known/unknown, request via NextServer or ServeHTTP (handler may rewrite req.URL path/host/scheme/user/query and headers; request may carry a sticky cookie naming a member or non-member), rotation (W selections). Oracle: reference model keyed by (scheme,host,path)->configured weight; after every step Servers() key set and ServerWeight equal the model, unknown remove errors and changes nothing, rotation selects exactly the positive-weight members, empty/all-zero pool => error status and handler not invoked, Servers() rendered as strings unchanged by a mutating handler. Non-trivial: removal after >=1 update of the same key, or duplicate add under a different spelling, or unknown remove, or mutating handler on the sticky path. Later additions: a differential twin pool receives the same history without the removals of unknown servers and must keep choosing the same servers; an adjusting mode for the rebalancer (ready scripted meters, frozen clock moving before every request) where a drained member must stay at weight 0 and a positive one positive; in the racing test two administrators add the same new server at the same moment (listed once, one removal takes it out).")
 	vstat.Main(m.Run)
 }
 
